@@ -160,7 +160,7 @@ def run_vdriver(cases, tag, keep=None, detail=0, outdir=None, extra=None, case_t
     tpath = os.path.join(d, "trace.ndjson")
     t0 = time.time()
     try:
-        rc, out = _vdriver_once(cpath, tpath, keep, detail, outdir, extra, (30 + 0.1 * len(cases)) if case_timeout else 3000)
+        rc, out = _vdriver_once(cpath, tpath, keep, detail, outdir, extra, (120 + 0.3 * len(cases)) if case_timeout else 3000)
         if rc != 0:
             log(out[-3000:])
             raise ToolError("vdriver failed (rc=%d)" % rc)
